@@ -102,10 +102,11 @@ func (st *SimpleTableServicer) GetRowsByID(srv GRIPSource_GetRowsByIDServer) err
 			if row, err := dr.FetchRow(req.Id); err == nil {
 				data, _ := structpb.NewStruct(row.Value)
 				srv.Send(&Row{Id: row.Key, Data: data, RequestID: req.RequestID})
+				continue
 			}
-		} else {
-			//do something here
 		}
+		//every request is answered: a row without id and data means "not found"
+		srv.Send(&Row{RequestID: req.RequestID})
 	}
 	return nil
 }
